@@ -5,9 +5,11 @@ CONSTANTS MaxToks, MaxWord
 VARIABLES toks, phase
 Chars == [id : 1..2, up : BOOLEAN, ascii : BOOLEAN]
 Words == UNION {[1..n -> Chars] : n \in 1..MaxWord}
-TokSet == {[wl |-> TRUE, chars |-> w, canon |-> cn, cap |-> cp] :
+\* a `latin` token is a condensed abbreviation: never a proper noun, never capitalised in mid-title
+TokSet == {[wl |-> TRUE, chars |-> w, canon |-> cn, cap |-> cp, latin |-> FALSE] :
               w \in Words, cn \in {"none", "Title", "iOS"}, cp \in BOOLEAN}
-          \cup {[wl |-> FALSE, chars |-> <<[id |-> 1, up |-> FALSE, ascii |-> FALSE]>>, canon |-> "none", cap |-> FALSE]}
+          \cup {[wl |-> TRUE, chars |-> w, canon |-> "none", cap |-> FALSE, latin |-> TRUE] : w \in Words}
+          \cup {[wl |-> FALSE, chars |-> <<[id |-> 1, up |-> FALSE, ascii |-> FALSE]>>, canon |-> "none", cap |-> FALSE, latin |-> FALSE]}
 
 TInit == toks = <<>> /\ phase = "build"
 AddTok == phase = "build" /\ Len(toks) < MaxToks /\ \E t \in TokSet : toks' = Append(toks, t) /\ UNCHANGED phase
